@@ -704,6 +704,83 @@ func c14W2(r *core.R) {
 		}
 	}
 
+	// (b2) an id is marked visited only when its emission is attempted: the cycle cut and the not-found exit leave
+	// walk without emitting, and a relation left that way must stay unvisited so that its own requested id still emits it.
+	var allStores []*ast.AssignStmt
+	inspectNoLit(m.walk.Decl.Body, func(n ast.Node) bool {
+		if as, ok := n.(*ast.AssignStmt); ok {
+			for _, l := range as.Lhs {
+				if ix, ok := ast.Unparen(l).(*ast.IndexExpr); ok && c14OnBase(info, ix.X, m.fVisited, m.recv) {
+					allStores = append(allStores, as)
+				}
+			}
+		}
+		return true
+	})
+	for _, store := range allStores {
+		if reachableFrom([]*cfg.Block{m.sendBlk}, nil)[func() *cfg.Block { b, _ := blockOf(m.g, store.Pos()); return b }()] && !posDominates(m.g, m.dom, store.Pos(), m.send.Pos()) {
+			continue // a store after the emission (idiom B) marks only emitted ids
+		}
+		c2 := "visited-only-when-emitting@" + fn
+		var sel *ast.SelectStmt
+		for p := m.par[ast.Node(m.send)]; p != nil; p = m.par[p] {
+			if s, ok := p.(*ast.SelectStmt); ok {
+				sel = s
+				break
+			}
+		}
+		inEmit := func(b *cfg.Block) bool {
+			if b == m.sendBlk {
+				return true
+			}
+			for _, n := range b.Nodes {
+				if sel != nil && n.Pos() >= sel.Pos() && n.End() <= sel.End() {
+					return true
+				}
+			}
+			return false
+		}
+		sb, si := blockOf(m.g, store.Pos())
+		why := ""
+		var wpos token.Pos
+		scan := func(b *cfg.Block, from int) {
+			for _, n := range b.Nodes[from:] {
+				ast.Inspect(n, func(x ast.Node) bool {
+					if call, ok := x.(*ast.CallExpr); ok && callee(info, call) == m.walk.Obj && why == "" {
+						why, wpos = "a recursive call `"+src(fs, call)+"` runs after the id was marked visited and before it is emitted", call.Pos()
+					}
+					return true
+				})
+				if ret, ok := n.(*ast.ReturnStmt); ok && why == "" {
+					why, wpos = "`"+src(fs, ret)+"` leaves "+fn+" after the id was marked visited without an emission having been attempted", ret.Pos()
+				}
+			}
+		}
+		if sb != nil && !inEmit(sb) {
+			scan(sb, si+1)
+			seen := map[*cfg.Block]bool{sb: true}
+			work := append([]*cfg.Block{}, sb.Succs...)
+			for len(work) > 0 && why == "" {
+				b := work[len(work)-1]
+				work = work[:len(work)-1]
+				if seen[b] || inEmit(b) {
+					continue
+				}
+				seen[b] = true
+				scan(b, 0)
+				if len(b.Succs) == 0 && why == "" {
+					why, wpos = "a path leaves "+fn+" after the id was marked visited without an emission having been attempted", store.Pos()
+				}
+				work = append(work, b.Succs...)
+			}
+		}
+		if why != "" {
+			r.Bad(c2, wpos, "%s: a relation whose walk is cut short (cycle cut, error) stays marked and is never emitted when its own requested id comes up (graph 1→2, 2→3, 3→2 with request [1,2,3] never emits 3)", why)
+		} else {
+			r.OK(c2, store.Pos(), "every path from `%s` goes straight into the emitting select: no recursion and no return in between", src(fs, store))
+		}
+	}
+
 	// (c) the visited set only grows
 	c = "visited-monotone"
 	bad := false
@@ -1924,7 +2001,7 @@ func init() {
 		DesignRef:   "DESIGN.md §5 C14",
 		Rules: []*core.Rule{
 			{ID: "W1", Floor: 3, Doc: "emit after children: single send of the walked id, no recursion after it, member loops exhausted before it", Run: c14W1},
-			{ID: "W2", Floor: 5, Doc: "emit once: visited test and store around the send, monotone set, single goroutine, producer loop over all requested ids", Run: c14W2},
+			{ID: "W2", Floor: 6, Doc: "emit once: visited test and store around the send, monotone set, single goroutine, producer loop over all requested ids", Run: c14W2},
 			{ID: "W3", Floor: 7, Doc: "cycle cut and termination: append(path, child), dominating path scan whose match leaves the walk, empty root path, not-found/err handling", Run: c14W3},
 			{ID: "W4", Floor: 7, Doc: "no deadlock on stop: own cancellable context, select with Done on send and receive, cancel before Wait, deferred close/Done, Add(1) before go", Run: c14W4},
 			{ID: "W5", Floor: 4, Doc: "all versions' members are walked, only relation members are followed", Run: c14W5},
@@ -1934,6 +2011,7 @@ func init() {
 			{Name: "send-before-members", File: f, Find: c14SrcLoop + "\n" + c14SrcCtxCheck + "\n" + c14SrcEmit, Replace: c14SrcEmit + "\n" + c14SrcLoop + "\n" + c14SrcCtxCheck, ExpectRule: "W1", ExpectConstruct: "post-order@" + w},
 			{Name: "members-only-near-root", File: f, Find: c14SrcLoop, Replace: "\tif len(path) < 2 {\n" + c14SrcLoop + "\t}\n", ExpectRule: "W1", ExpectConstruct: "members-complete@" + w},
 			{Name: "send-other-id", File: f, Find: "case o.out <- id:", Replace: "case o.out <- o.id + id:", ExpectRule: "W1", ExpectConstruct: "send-site@" + w},
+			{Name: "visited-store-on-entry", File: f, Find: "\tfor _, r := range relations {\n\t\tfor _, m := range r.Members {", Replace: "\to.visited[id] = struct{}{}\n\tfor _, r := range relations {\n\t\tfor _, m := range r.Members {", ExpectRule: "W2", ExpectConstruct: "visited-only-when-emitting"},
 			{Name: "drop-visited-store", File: f, Find: "\to.visited[id] = struct{}{}\n", Replace: "", ExpectRule: "W2", ExpectConstruct: "visited-store@" + w},
 			{Name: "visited-store-wrong-key", File: f, Find: "o.visited[id] = struct{}{}", Replace: "o.visited[o.id] = struct{}{}", ExpectRule: "W2", ExpectConstruct: "visited-store@" + w},
 			{Name: "drop-visited-test", File: f, Find: "\tif _, ok := o.visited[id]; ok {\n\t\treturn nil\n\t}\n", Replace: "", ExpectRule: "W2", ExpectConstruct: "visited-test@" + w},
